@@ -26,6 +26,7 @@ type Config struct {
 	MTU          int  // 0: default; n: both sides fragment their flights at n bytes (flights span several datagrams)
 	NoHV         bool // the server skips the cookie exchange (WithInsecureSkipVerifyHello)
 	SkipVerify   bool // the client does not verify certificate chains (WithInsecureSkipVerify): Finished checks are unaffected
+	Alias        bool // both session stores keep and hand out the library's own slices (no defensive copies)
 }
 
 var pskKey = []byte{0xC1, 0x4C, 0x14, 0x77, 0x01}
@@ -61,6 +62,9 @@ func Configs() []Config {
 				out = append(out, Config{Name: n + "-mtu200", Primary: f.p, Alt: f.a, PSK: f.psk, EMSOff: emsOff, CID: cid, MTU: 200})
 				if !emsOff && cid == 0 {
 					out = append(out, Config{Name: n + "-nohv", Primary: f.p, Alt: f.a, PSK: f.psk, EMSOff: emsOff, CID: cid, NoHV: true})
+				}
+				if emsOff == (cid == 0) {
+					out = append(out, Config{Name: n + "-aliasstore", Primary: f.p, Alt: f.a, PSK: f.psk, EMSOff: emsOff, CID: cid, Alias: true})
 				}
 				if !f.psk && !emsOff {
 					out = append(out, Config{Name: n + "-skipverify", Primary: f.p, Alt: f.a, EMSOff: emsOff, CID: cid, SkipVerify: true})
@@ -167,11 +171,15 @@ type Hist struct {
 	CSuites, SSuites []dtls.CipherSuiteID
 	CGen, SGen       *cidGen
 	LastSID          []byte // session id of the most recent connection in which both sides finished
+	// GiveUp > 0: the applications of the NEXT connection abandon the handshake after that much fake time
+	// (both sides are closed while their Handshake calls are pending); reset by Connect
+	GiveUp time.Duration
 }
 
 func NewHist(c Config) *Hist {
 	h := &Hist{Cfg: c, CS: world.NewMapStore(), SS: world.NewMapStore(),
 		CSuites: []dtls.CipherSuiteID{c.Primary, c.Alt}, SSuites: []dtls.CipherSuiteID{c.Primary, c.Alt}}
+	h.CS.Alias, h.SS.Alias = c.Alias, c.Alias
 	if c.CID > 0 {
 		h.CGen = &cidGen{tag: 'C', n: c.CID}
 		h.SGen = &cidGen{tag: 'S', n: c.CID}
@@ -423,6 +431,9 @@ func (h *Hist) Connect(w *world.World, p *world.PKI, idx int, m world.Mask, tamp
 		tr.Visit(fmt.Sprintf("conn%d|", idx)+pr.StateString(n), fmt.Sprintf("open%d", idx))
 	}
 	hz := horizonFor(m)
+	if h.GiveUp > 0 {
+		hz, h.GiveUp = h.GiveUp, 0
+	}
 	end := w.Now() + hz
 	var pend *world.Datagram
 	var pendMod []byte
@@ -507,12 +518,14 @@ func (h *Hist) Connect(w *world.World, p *world.PKI, idx int, m world.Mask, tamp
 	}
 	w.Settle()
 	r.Wire = observe(w, first, -1, h.Cfg.CID)
-	r.PostC, r.PostS = h.CS.Snapshot(), h.SS.Snapshot()
 	if h.CGen != nil {
 		r.CGenNew, r.SGenNew = h.CGen.since(cg0), h.SGen.since(sg0)
 	}
 	r.Events = n.Events
 	pr.CloseAll()
+	w.Settle()
+	// what the connection leaves in the stores, its shutdown included (a pending handshake ends with Close)
+	r.PostC, r.PostS = h.CS.Snapshot(), h.SS.Snapshot()
 	// Nothing of this connection may reach the next one.
 	for _, d := range w.InFlight() {
 		w.Take(d)
